@@ -20,8 +20,10 @@ import (
 	"encoding/base64"
 	"encoding/hex"
 	"encoding/pem"
+	"errors"
 	"fmt"
 	"math/big"
+	"os"
 	"sort"
 	"strconv"
 	"strings"
@@ -96,13 +98,13 @@ var (
 	c17KindsThorough = c17Slots(128, "aes256-gcm96", 15, "ed25519", 15, "chacha20-poly1305", 14, "ecdsa-p256", 11, "aes128-gcm96", 14, "xchacha20-poly1305", 14,
 		"ecdsa-p384", 8, "hmac", 12, "ecdsa-p521", 8, "rsa-2048", 6, "rsa-3072", 2, "rsa-4096", 1)
 
-	c17ActsEnc = c17Slots(32, "encrypt", 5, "encrypt-ver", 2, "decrypt", 6, "decrypt-mut", 5, "rotate", 4, "config", 3, "trim", 1, "backup", 1, "restore", 1,
+	c17ActsEnc = c17Slots(32, "fault", 1, "fault-cycle", 1, "encrypt", 4, "encrypt-ver", 2, "decrypt", 5, "decrypt-mut", 5, "rotate", 4, "config", 3, "trim", 1, "backup", 1, "restore", 1,
 		"delete-restore", 1, "reload", 1, "hmac", 2)
-	c17ActsSign = c17Slots(32, "sign", 6, "verify", 6, "verify-mut", 6, "rotate", 4, "config", 3, "trim", 1, "backup", 1, "restore", 1,
+	c17ActsSign = c17Slots(32, "fault", 1, "fault-cycle", 1, "sign", 5, "verify", 6, "verify-mut", 5, "rotate", 4, "config", 3, "trim", 1, "backup", 1, "restore", 1,
 		"delete-restore", 1, "reload", 1, "hmac", 2)
-	c17ActsBoth = c17Slots(32, "encrypt", 3, "encrypt-ver", 1, "decrypt", 3, "decrypt-mut", 3, "sign", 4, "verify", 3, "verify-mut", 4, "rotate", 3, "config", 3,
+	c17ActsBoth = c17Slots(32, "fault", 1, "fault-cycle", 1, "encrypt", 3, "encrypt-ver", 1, "decrypt", 3, "decrypt-mut", 3, "sign", 3, "verify", 3, "verify-mut", 3, "rotate", 3, "config", 3,
 		"trim", 1, "backup", 1, "restore", 1, "delete-restore", 1, "reload", 1)
-	c17ActsHMAC = c17Slots(32, "hmac", 12, "rotate", 6, "config", 5, "trim", 2, "backup", 2, "restore", 2, "delete-restore", 1, "reload", 2)
+	c17ActsHMAC = c17Slots(32, "fault", 1, "fault-cycle", 1, "hmac", 10, "rotate", 6, "config", 5, "trim", 2, "backup", 2, "restore", 2, "delete-restore", 1, "reload", 2)
 )
 
 // model of the key ring
@@ -168,6 +170,68 @@ type c17Case struct {
 	ntCfg       bool
 	ntMut       bool
 	trace       []string
+
+	// storage faults
+	inner       logical.Storage  // the real storage (reads of the oracle go here)
+	fs          *c17FaultStorage // what the lock manager sees
+	faulting    bool             // the operation in progress may fail because of an injected fault
+	faultUsed   bool             // one faulted operation per case
+	opErr       error            // error of the operation that ran with faulting=true
+	intended    *c17Model        // what the faulted operation would have made of the key ring
+	commit      func()           // bookkeeping to run if the intended change turns out to be applied
+	faultTag    string           // prefix for violation signatures once a fault has fired
+	forceLatest bool             // directed sequence: produce material under the latest version
+	dead        bool             // a known finding was hit: the rest of the case is not judged
+}
+
+type c17Stop struct{}
+
+// c17FaultStorage passes everything through and fails one generated write while armed.
+type c17FaultStorage struct {
+	logical.Storage
+	armed    bool
+	mode     string // "kth", "policy", "archive"
+	k        int
+	writes   int
+	fired    bool
+	firedKey string
+}
+
+func (s *c17FaultStorage) hit(key string) bool {
+	if !s.armed || s.fired {
+		return false
+	}
+	s.writes++
+	switch s.mode {
+	case "kth":
+		if s.writes != s.k {
+			return false
+		}
+	case "policy":
+		if !strings.HasPrefix(key, "policy/") {
+			return false
+		}
+	case "archive":
+		if !strings.HasPrefix(key, "archive/") {
+			return false
+		}
+	}
+	s.fired, s.firedKey = true, key
+	return true
+}
+
+func (s *c17FaultStorage) Put(ctx context.Context, e *logical.StorageEntry) error {
+	if s.hit(e.Key) {
+		return errors.New("verif: injected storage write failure")
+	}
+	return s.Storage.Put(ctx, e)
+}
+
+func (s *c17FaultStorage) Delete(ctx context.Context, key string) error {
+	if s.hit(key) {
+		return errors.New("verif: injected storage delete failure")
+	}
+	return s.Storage.Delete(ctx, key)
 }
 
 var c17Ctx = context.Background()
@@ -211,8 +275,44 @@ func (c *c17Case) viol(t *rapid.T, sig string, format string, args ...any) {
 		"model": fmt.Sprintf("latest=%d minDec=%d minEnc=%d minAvail=%d", c.m.latest, c.m.minDec, c.m.minEnc, c.m.minAvail),
 		"trace": append([]string(nil), c.trace...),
 	}
-	c.rec.Violation(t, sig, detail, "[%s derived=%v convergent=%v cache=%v] "+format+"; steps: %s",
-		append(append([]any{c.kind.name, c.derived, c.convergent, c.useCache}, args...), strings.Join(c.trace, " | "))...)
+	if c.faultTag != "" {
+		// everything that goes wrong after an injected write failure is reported under one signature per
+		// (operation, failed write); the underlying signature is kept in the message
+		format = "(" + sig + ") " + format
+		sig = c.faultTag
+		detail["underlying_signature"] = sig
+		for _, k := range strings.Split(os.Getenv("VERIF_C17_TOLERATE"), ",") {
+			if k != "" && "after-fault:"+k == c.faultTag { // diagnostic knob, never set by the driver
+				c.rec.Class("tolerated:"+c.faultTag, 1)
+				c.dead = true
+				panic(c17Stop{})
+			}
+		}
+	}
+	if !c.rec.Violation(t, sig, detail, "[%s derived=%v convergent=%v cache=%v] "+format+"; steps: %s",
+		append(append([]any{c.kind.name, c.derived, c.convergent, c.useCache}, args...), strings.Join(c.trace, " | "))...) {
+		// listed known finding: the state is no longer meaningful, stop judging this case
+		c.dead = true
+		panic(c17Stop{})
+	}
+}
+
+// guard runs one state-machine callback; after a known finding the case is left alone.
+func (c *c17Case) guard(f func(*rapid.T)) func(*rapid.T) {
+	return func(t *rapid.T) {
+		if c.dead {
+			return
+		}
+		defer func() {
+			if r := recover(); r != nil {
+				if _, ok := r.(c17Stop); ok {
+					return
+				}
+				panic(r)
+			}
+		}()
+		f(t)
+	}
 }
 
 // with fetches the policy through the lock manager exactly as the transit backend does and releases it afterwards.
@@ -353,6 +453,13 @@ func (c *c17Case) actRotate(t *rapid.T) {
 			c.viol(t, "rotate-panic", "Rotate panicked: %v", pn)
 		}
 		if err != nil {
+			if c.faulting {
+				c.opErr = err
+				c.intended = c.m.clone()
+				c.intended.latest++
+				c.commit = func() { c.rotations++ }
+				return
+			}
 			c.viol(t, "rotate-failed", "Rotate failed: %v", err)
 		}
 		c.m.latest++
@@ -367,8 +474,8 @@ func (c *c17Case) actRotate(t *rapid.T) {
 			}
 		}
 		c.m.fps[c.m.latest] = fp
+		c.rotations++
 	})
-	c.rotations++
 }
 
 func (c *c17Case) actConfig(t *rapid.T) {
@@ -404,8 +511,17 @@ func (c *c17Case) actConfig(t *rapid.T) {
 	case "deletion":
 		del = !del
 	}
+	c.configTo(t, newDec, newEnc, del)
+}
+
+// configTo applies a valid configuration the way the transit config endpoint does: set the fields, persist,
+// put the fields back if persisting failed.
+func (c *c17Case) configTo(t *rapid.T, newDec, newEnc int, del bool) {
+	m := c.m
 	c.step("config(minDec=%d,minEnc=%d,del=%v)", newDec, newEnc, del)
+	failed := false
 	c.with(t, true, func(p *Policy) {
+		od, oe, odel := p.MinDecryptionVersion, p.MinEncryptionVersion, p.DeletionAllowed
 		p.MinDecryptionVersion = newDec
 		p.MinEncryptionVersion = newEnc
 		p.DeletionAllowed = del
@@ -414,10 +530,27 @@ func (c *c17Case) actConfig(t *rapid.T) {
 			c.viol(t, "persist-panic", "Persist panicked after a valid configuration change: %v", pn)
 		}
 		if err != nil {
+			p.MinDecryptionVersion, p.MinEncryptionVersion, p.DeletionAllowed = od, oe, odel
+			if c.faulting {
+				failed = true
+				c.opErr = err
+				c.intended = m.clone()
+				c.intended.minDec, c.intended.minEnc, c.intended.deletionAllowed = newDec, newEnc, del
+				changed := newDec != m.minDec || newEnc != m.minEnc
+				c.commit = func() {
+					if changed {
+						c.cfgChanges++
+					}
+				}
+				return
+			}
 			c.viol(t, "config-persist-failed", "Persist failed for the valid configuration min_decryption_version=%d min_encryption_version=%d (latest %d, min_available %d): %v",
 				newDec, newEnc, m.latest, m.minAvail, err)
 		}
 	})
+	if failed {
+		return
+	}
 	if newDec != m.minDec || newEnc != m.minEnc {
 		c.cfgChanges++
 	}
@@ -442,23 +575,39 @@ func (c *c17Case) actTrim(t *rapid.T) {
 	}
 	n := rapid.IntRange(lo, hi).Draw(t, "minAvail")
 	c.step("trim(%d)", n)
+	apply := func(m *c17Model) {
+		for v, fp := range m.fps {
+			if v < n {
+				c.trimmed[fp] = true
+				delete(m.fps, v)
+			}
+		}
+		m.minAvail = n
+	}
+	failed := false
 	c.with(t, true, func(p *Policy) {
+		orig := p.MinAvailableVersion
 		p.MinAvailableVersion = n
 		var err error
 		if pn := verifx.Try(func() { err = p.Persist(c17Ctx, c.st) }); pn != nil {
 			c.viol(t, "persist-panic", "Persist panicked after trim: %v", pn)
 		}
 		if err != nil {
+			p.MinAvailableVersion = orig // as the trim endpoint does
+			if c.faulting {
+				failed = true
+				c.opErr = err
+				c.intended = m.clone()
+				c.intended.minAvail = n
+				c.commit = func() { apply(c.m) }
+				return
+			}
 			c.viol(t, "trim-persist-failed", "Persist failed for min_available_version=%d (minDec %d, minEnc %d, latest %d): %v", n, m.minDec, m.minEnc, m.latest, err)
 		}
 	})
-	for v, fp := range m.fps {
-		if v < n {
-			c.trimmed[fp] = true
-			delete(m.fps, v)
-		}
+	if !failed {
+		apply(m)
 	}
-	m.minAvail = n
 }
 
 func (c *c17Case) actBackup(t *rapid.T) {
@@ -521,17 +670,26 @@ func (c *c17Case) restore(t *rapid.T, deleteFirst bool) {
 	if pn := verifx.Try(func() { err = c.lm.RestorePolicy(c17Ctx, c.st, c17Name, c.snap.backup, !deleteFirst) }); pn != nil {
 		c.viol(t, "restore-panic", "RestorePolicy panicked: %v", pn)
 	}
+	old := c.m
+	done := func() {
+		c.m = c.snap.m.clone()
+		for _, fp := range c.m.fps {
+			delete(c.trimmed, fp)
+		}
+		if old.minDec != c.m.minDec || old.minEnc != c.m.minEnc {
+			c.cfgChanges++
+		}
+	}
 	if err != nil {
+		if c.faulting {
+			c.opErr = err
+			c.intended = c.snap.m.clone()
+			c.commit = done
+			return
+		}
 		c.viol(t, "restore-failed", "RestorePolicy of a backup taken in this run failed: %v", err)
 	}
-	old := c.m
-	c.m = c.snap.m.clone()
-	for _, fp := range c.m.fps {
-		delete(c.trimmed, fp)
-	}
-	if old.minDec != c.m.minDec || old.minEnc != c.m.minEnc {
-		c.cfgChanges++
-	}
+	done()
 }
 
 func (c *c17Case) actReload(t *rapid.T) {
@@ -561,8 +719,11 @@ func (c *c17Case) actEncrypt(t *rapid.T, explicit bool) {
 		}
 		nonce = c17Bytes(t, "nonce", n, n)
 	}
+	if c.forceLatest {
+		nonce = nil
+	}
 	c.step("encrypt(ver=%d,ctx=%x,ad=%x,pt=%s,nonce=%v)", ver, ctx, ad, verifx.Trunc(hex.EncodeToString(pt), 24), nonce != nil)
-	c.encrypt(t, ver, ctx, ad, pt, nonce, len(c.entries) < 40)
+	c.encrypt(t, ver, ctx, ad, pt, nonce, len(c.entries) < 40 || c.forceLatest)
 }
 
 // encrypt performs one encryption, checks it against the model and (optionally) files it in the table.
@@ -698,6 +859,11 @@ func (c *c17Case) actDecrypt(t *rapid.T) {
 	}
 	e := c.pick(t, "ct")
 	rewrap := rapid.IntRange(0, 2).Draw(t, "thenRewrap") == 0
+	c.decryptEntry(t, e, rewrap)
+}
+
+// decryptEntry decrypts a table row with its own context / associated data and judges the outcome.
+func (c *c17Case) decryptEntry(t *rapid.T, e *c17Entry, rewrap bool) {
 	ok := c.usable(e.ver, e.fp)
 	c.step("decrypt(v%d made at rot %d, usable=%v, rewrap=%v)", e.ver, e.rotAt, ok, rewrap)
 	c.noteUse(e)
@@ -1007,6 +1173,9 @@ func (c *c17Case) actSign(t *rapid.T) {
 	if rapid.IntRange(0, 2).Draw(t, "explicitVersion") == 0 {
 		ver = rapid.IntRange(-1, m.latest+1).Draw(t, "keyVersion")
 	}
+	if c.forceLatest {
+		ver = 0
+	}
 	ctx := c.drawCtx(t)
 	msg := c.drawMsg(t)
 	h := c.drawHash(t, "hash")
@@ -1074,7 +1243,7 @@ func (c *c17Case) actSign(t *rapid.T) {
 			c.viol(t, "verify-rejects-valid", "a signature just produced (version %d) does not verify: valid=%v err=%v", want, valid, verr)
 		}
 		c.rec.Class("sign:ok", 1)
-		if len(c.entries) < 40 {
+		if len(c.entries) < 40 || c.forceLatest {
 			c.entries = append(c.entries, e)
 		}
 	})
@@ -1084,7 +1253,11 @@ func (c *c17Case) actVerify(t *rapid.T, mutate bool) {
 	if !c.kind.sign {
 		t.Skip("no signing")
 	}
-	e := c.pick(t, "sig")
+	c.verifyEntry(t, c.pick(t, "sig"), mutate)
+}
+
+// verifyEntry verifies a table row, optionally with one variation, and judges the verdict.
+func (c *c17Case) verifyEntry(t *rapid.T, e *c17Entry, mutate bool) {
 	_, body, _ := c17Split(e.text)
 	raw, _ := c17SigDecode(e.marsh, body)
 	text, ctx, msg, h, marsh, sigAlg, salt := e.text, e.ctx, e.pt, e.hash, e.marsh, e.sigAlg, e.salt
@@ -1227,7 +1400,12 @@ func (c *c17Case) actHMAC(t *rapid.T) {
 	if rapid.Bool().Draw(t, "hmacInWindow") {
 		ver = rapid.IntRange(m.minDec, m.latest).Draw(t, "hmacVersionIn")
 	}
-	msg := c.drawMsg(t)
+	c.hmacKey(t, ver)
+}
+
+// hmacKey fetches the HMAC key of a version and compares it with what the run has seen for that version.
+func (c *c17Case) hmacKey(t *rapid.T, ver int) {
+	m := c.m
 	c.step("hmac(ver=%d)", ver)
 	mustFail := ver < m.minDec || ver > m.latest
 	c.with(t, false, func(p *Policy) {
@@ -1269,7 +1447,6 @@ func (c *c17Case) actHMAC(t *rapid.T) {
 				c.viol(t, "hmac-key-not-version-key", "an hmac-type key returns an HMAC key for version %d that is not that version's key", ver)
 			}
 		}
-		_ = msg
 	})
 }
 
@@ -1319,13 +1496,13 @@ func (c *c17Case) checkPolicy(t *rapid.T, where string, p *Policy) {
 func (c *c17Case) check(t *rapid.T) {
 	m := c.m
 	c.with(t, false, func(p *Policy) { c.checkPolicy(t, "live", p) })
-	stored, err := LoadPolicy(c17Ctx, c.st, "policy/"+c17Name)
+	stored, err := LoadPolicy(c17Ctx, c.inner, "policy/"+c17Name)
 	if err != nil || stored == nil {
 		c.viol(t, "policy-unloadable", "the stored policy cannot be loaded: %v", err)
 		return
 	}
 	c.checkPolicy(t, "stored", stored)
-	arch, err := stored.LoadArchive(c17Ctx, c.st)
+	arch, err := stored.LoadArchive(c17Ctx, c.inner)
 	if err != nil {
 		c.viol(t, "archive-unloadable", "the stored archive cannot be loaded: %v", err)
 		return
@@ -1346,6 +1523,178 @@ func (c *c17Case) check(t *rapid.T) {
 		if c.trimmed[c17FP(ke)] {
 			c.viol(t, "trimmed-key-still-stored", "archive slot %d still holds the key material of a trimmed version (min_available_version %d)", i, m.minAvail)
 		}
+	}
+}
+
+// ---------------------------------------------------------------- storage faults
+
+func (c *c17Case) drawFault(t *rapid.T, table []string) (string, int) {
+	mode := c17Slot(t, "faultMode", table)
+	k := 0
+	if mode == "kth" {
+		k = rapid.IntRange(1, 4).Draw(t, "faultK")
+	}
+	return mode, k
+}
+
+// faulted runs one mutating operation with one generated write failure armed and then finds out from
+// storage (not from assumptions) whether the key ring is unchanged or fully changed.
+func (c *c17Case) faulted(t *rapid.T, op string, mode string, k int, run func()) {
+	c.faultUsed = true
+	c.opErr, c.intended, c.commit = nil, nil, nil
+	*c.fs = c17FaultStorage{Storage: c.inner, armed: true, mode: mode, k: k}
+	c.faulting = true
+	c.step("fault(%s,%s,k=%d)", op, mode, k)
+	func() {
+		defer func() { c.faulting = false; c.fs.armed = false }()
+		run()
+	}()
+	c.rec.Class("fault:op:"+op, 1)
+	if !c.fs.fired {
+		c.rec.Class("fault:not-reached", 1)
+		if c.opErr != nil {
+			c.viol(t, op+"-failed", "%s failed although no write failed: %v", op, c.opErr)
+		}
+		return
+	}
+	target := "policy"
+	if strings.HasPrefix(c.fs.firedKey, "archive/") {
+		target = "archive"
+	}
+	c.faultTag = "after-fault:" + op + "-" + target
+	c.rec.Class("fault:fired:"+op+"-"+target, 1)
+	c.step("fault-fired(%s write %d, err=%v)", c.fs.firedKey, c.fs.writes, c.opErr != nil)
+	if c.opErr == nil {
+		// the operation reported success although a write failed; the model was advanced by the operation itself,
+		// the invariant check that follows compares it with storage
+		c.rec.Class("fault:swallowed", 1)
+		return
+	}
+	stored, err := LoadPolicy(c17Ctx, c.inner, "policy/"+c17Name)
+	if err != nil || stored == nil {
+		c.viol(t, "policy-unloadable", "after the failed %s the stored policy cannot be loaded: %v", op, err)
+		return
+	}
+	matches := func(m *c17Model) bool {
+		if stored.LatestVersion != m.latest || stored.MinDecryptionVersion != m.minDec || stored.MinEncryptionVersion != m.minEnc ||
+			stored.MinAvailableVersion != m.minAvail || stored.DeletionAllowed != m.deletionAllowed {
+			return false
+		}
+		for v := m.minDec; v <= m.latest; v++ {
+			if fp, ok := m.fps[v]; ok {
+				if ke, has := stored.Keys[strconv.Itoa(v)]; has && c17FP(ke) != fp {
+					return false
+				}
+			}
+		}
+		return true
+	}
+	switch {
+	case matches(c.m):
+		c.rec.Class("fault:rolled-back", 1)
+	case c.intended != nil && matches(c.intended):
+		if _, ok := c.intended.fps[c.intended.latest]; !ok {
+			c.intended.fps[c.intended.latest] = c17FP(stored.Keys[strconv.Itoa(c.intended.latest)])
+		}
+		if op == "restore" {
+			c.commit()
+		} else {
+			c.m = c.intended
+			c.commit()
+		}
+		c.rec.Class("fault:applied-despite-error", 1)
+	default:
+		c.viol(t, "partial-state", "after the failed %s the stored policy (latest=%d minDec=%d minEnc=%d minAvail=%d deletion_allowed=%v) is neither the old nor the intended key ring",
+			op, stored.LatestVersion, stored.MinDecryptionVersion, stored.MinEncryptionVersion, stored.MinAvailableVersion, stored.DeletionAllowed)
+	}
+}
+
+var (
+	c17FaultModes      = []string{"kth", "kth", "kth", "kth", "policy", "policy", "archive", "archive"}
+	c17FaultModesCycle = []string{"policy", "policy", "policy", "policy", "kth", "kth", "archive", "policy"}
+)
+
+// actFault: one generated mutating operation with one generated write failure.
+func (c *c17Case) actFault(t *rapid.T) {
+	op := c17Slot(t, "faultOp", []string{"rotate", "rotate", "config", "config", "trim", "trim", "restore", "restore"})
+	if op == "trim" && c.m.minEnc == 0 {
+		op = "config"
+	}
+	if op == "restore" && c.snap == nil {
+		op = "rotate"
+	}
+	if op == "rotate" && c.kind.rsaBits > 0 && c.m.latest >= c.rsaCap {
+		op = "config"
+	}
+	mode, k := c.drawFault(t, c17FaultModes)
+	c.faulted(t, op, mode, k, func() {
+		switch op {
+		case "rotate":
+			c.actRotate(t)
+		case "config":
+			c.actConfig(t)
+		case "trim":
+			c.actTrim(t)
+		case "restore":
+			c.actRestore(t)
+		}
+	})
+}
+
+// actFaultCycle is the directed history: a rotation hit by a write failure, the retry, material produced under
+// the new version, one more rotation, min_decryption_version raised above that version and lowered again, a
+// reload, and then the material must still decrypt / verify.
+func (c *c17Case) actFaultCycle(t *rapid.T) {
+	if c.kind.rsaBits > 0 && c.m.latest >= c.rsaCap {
+		c.actConfig(t)
+		return
+	}
+	mode, k := c.drawFault(t, c17FaultModesCycle)
+	reloadEarly := rapid.Bool().Draw(t, "reloadBeforeLowering")
+	before := c.m.latest
+	c.faulted(t, "rotate", mode, k, func() { c.actRotate(t) })
+	if c.m.latest == before {
+		c.actRotate(t) // the client retries
+	}
+	n1 := c.m.latest
+	oldDec, oldEnc, del := c.m.minDec, c.m.minEnc, c.m.deletionAllowed
+	first := len(c.entries)
+	c.forceLatest = true
+	func() {
+		defer func() { c.forceLatest = false }()
+		if c.kind.enc {
+			c.actEncrypt(t, false)
+		}
+		if c.kind.sign {
+			c.actSign(t)
+		}
+	}()
+	c.hmacKey(t, n1)
+	c.actRotate(t)
+	raisedEnc := oldEnc
+	if raisedEnc != 0 && raisedEnc < n1+1 {
+		raisedEnc = n1 + 1
+	}
+	c.configTo(t, n1+1, raisedEnc, del)
+	if reloadEarly {
+		c.actReload(t)
+	}
+	c.configTo(t, oldDec, oldEnc, del)
+	c.actReload(t)
+	for _, e := range c.entries[first:] {
+		if e.ver != n1 {
+			continue
+		}
+		if e.kind == "ct" {
+			c.decryptEntry(t, e, false)
+		} else {
+			c.verifyEntry(t, e, false)
+		}
+	}
+	c.hmacKey(t, n1)
+	c.rec.Class("fault:cycle-completed", 1)
+	if c.fs.fired {
+		c.rec.Class("fault:cycle-completed-after-fired-fault", 1)
 	}
 }
 
@@ -1371,6 +1720,13 @@ func (c *c17Case) stepAction(t *rapid.T) {
 		return false
 	}
 	switch name {
+	case "fault", "fault-cycle":
+		if c.faultUsed {
+			name = "rotate"
+			if c.kind.rsaBits > 0 && c.m.latest >= c.rsaCap {
+				name = "config"
+			}
+		}
 	case "decrypt", "decrypt-mut":
 		if !has("ct") {
 			name = "encrypt"
@@ -1397,6 +1753,10 @@ func (c *c17Case) stepAction(t *rapid.T) {
 		}
 	}
 	switch name {
+	case "fault":
+		c.actFault(t)
+	case "fault-cycle":
+		c.actFaultCycle(t)
 	case "encrypt":
 		c.actEncrypt(t, false)
 	case "encrypt-ver":
@@ -1488,7 +1848,9 @@ func TestVerif_C17_Policy(t *testing.T) {
 			rt.Fatalf("harness: NewLockManager: %v", err)
 		}
 		c.lm = lm
-		c.st = &logical.InmemStorage{}
+		c.inner = &logical.InmemStorage{}
+		c.fs = &c17FaultStorage{Storage: c.inner}
+		c.st = c.fs
 		c.m = &c17Model{latest: 1, minDec: 1, fps: map[int]string{}}
 		c.step("create(%s,%s,cache=%v,exportable=%v,plaintext_backup=%v)", c.kind.name, mode, c.useCache, c.exportable, c.plainBackup)
 		p, upserted, err := lm.GetPolicyExclusive(c17Ctx, PolicyRequest{
@@ -1502,7 +1864,11 @@ func TestVerif_C17_Policy(t *testing.T) {
 		c.m.fps[1] = c17FP(p.Keys["1"])
 		p.Unlock()
 
-		rt.Repeat(map[string]func(*rapid.T){"": c.check, "step": c.stepAction})
+		rt.Repeat(map[string]func(*rapid.T){"": c.guard(c.check), "step": c.guard(c.stepAction)})
+		if c.dead {
+			rec.Class("known-finding-case", 1)
+			return
+		}
 
 		if c.ntRot {
 			rec.Class("nt:two-rotations-earlier", 1)
